@@ -302,6 +302,15 @@ def gen_plain(rng, allow_take=True, max_terms=3, product_only=False, min_ranks=0
             tags.append("take%d" % len(factors))
             if any(len(f[2]) == 0 for f in factors):
                 tags.append("take_rank0_operand")
+            if rng.random() < 0.35:
+                # a scalar operand inside take(): it only scales the result when it is the selected operand
+                pos = rng.randint(0, len(factors))
+                factors.insert(pos, ("s", rng.choice(["a", "b"])))
+                if rng.random() < 0.3:
+                    sel = pos
+                elif pos <= sel:
+                    sel += 1
+                tags.append("take_scalar")
         elif rng.random() < 0.4:
             for _ in range(rng.choice([1, 1, 2])):
                 factors.insert(rng.randint(0, len(factors)), ("s", rng.choice(["a", "b"])))
@@ -394,6 +403,33 @@ def g2(rng, order="perm", symbolic=True):
     elif order == "levelsorted":
         case["mapping"]["loop-order"] = {out: level_sorted(rng, expanded)}
     add_rank_orders(rng, case, 0.3)
+    return case
+
+
+def g2deep(rng, order=None):
+    """one rank with 10-12 shape levels (two-digit level names K10, K11: string order != level order)"""
+    while True:
+        case, allr = gen_plain(rng, allow_take=False, min_ranks=1, max_terms=1)
+        if allr:
+            break
+    case["ext"] = {r: rng.randint(1, 7) for r in allr}
+    r = rng.choice(allr)
+    nl = rng.randint(10, 12)
+    case["ext"][r] = rng.randint(1, 40)
+    stack = ["uniform_shape(%d)" % (2 ** (nl - i)) for i in range(nl)]
+    expanded = []
+    for x in allr:
+        expanded += level_names(x, nl) if x == r else [x]
+    out = case["eins"][0]["out"]
+    case["mapping"]["partitioning"] = {out: {r: stack}}
+    order = order or rng.choice(["none", "none", "levelsorted", "perm"])
+    if order == "perm":
+        lo = list(expanded)
+        rng.shuffle(lo)
+        case["mapping"]["loop-order"] = {out: lo}
+    elif order == "levelsorted":
+        case["mapping"]["loop-order"] = {out: level_sorted(rng, expanded)}
+    case["tags"] += ["levels%d" % nl, "deep"]
     return case
 
 
@@ -788,6 +824,67 @@ def g5conv(rng):
         lead = "I" if r == "W" else ("T" if r == "Q" else "F")
         mapping["partitioning"] = {"Z": {r: ["uniform_occupancy(%s.%d)" % (lead, rng.randint(1, 3))]}}
     return dict(decl=decl, eins=[e1, e2], mapping=mapping, ext={"Q": Qx, "S": Sx, "W": Wx}, env={}, tags=["g5conv", second, opt])
+
+
+def g5conv2(rng):
+    """cascade of two shape-partitioned convolutions over the same input with different filter extents (different halos):
+    O1[q] = I[q + s] * F[s];  O2[p] = I[p + t] * G[t]"""
+    Sx, Tx = rng.sample([1, 2, 3, 4], 2)
+    Wx = rng.randint(max(Sx, Tx), max(Sx, Tx) + 6)
+    Qx, Px = Wx - Sx + 1, Wx - Tx + 1
+    e1 = dict(out="O1", oidx=[V("Q")], terms=[dict(kind="times", factors=[("t", "I", [[(1, "q"), (1, "s")]]), ("t", "F", [V("S")])], sel=None)])
+    e2 = dict(out="O2", oidx=[V("P")], terms=[dict(kind="times", factors=[("t", "I", [[(1, "p"), (1, "t")]]), ("t", "G", [V("T")])], sel=None)])
+    sz = rng.randint(1, 4)
+    lo1 = rng.choice([["Q1", "W0", "Q0"], ["Q1", "Q0", "S"], ["Q1", "S", "Q0"]])
+    lo2 = rng.choice([["P1", "W0", "P0"], ["P1", "P0", "T"], ["P1", "T", "P0"]])
+    mapping = {"partitioning": {"O1": {"Q": ["uniform_shape(%d)" % sz], "W": ["follow(Q)"]}, "O2": {"P": ["uniform_shape(%d)" % sz], "W": ["follow(P)"]}},
+               "loop-order": {"O1": lo1, "O2": lo2}}
+    if rng.random() < 0.3:
+        del mapping["partitioning"]["O1"]; mapping["loop-order"]["O1"] = rng.choice([["Q", "S"], ["S", "Q"], ["W", "Q"]])
+    return dict(decl={"I": ["W"], "F": ["S"], "G": ["T"], "O1": ["Q"], "O2": ["P"]}, eins=[e1, e2], mapping=mapping,
+                ext={"Q": Qx, "S": Sx, "W": Wx, "P": Px, "T": Tx}, env={"Q0": sz, "P0": sz, "W0": sz},
+                tags=["g5conv2", "conv", "a1", "b1", "part1", "cascade_conv"])
+
+
+def g7occ(rng):
+    """metrics specification whose input tensor is occupancy-split (not flattened), the split possibly happening below an outer
+    loop, with a format for the tensor in its final rank order and buffer bindings on a level of the split rank"""
+    two = rng.random() < 0.5
+    if two:
+        decl = {"A": ["M", "K"], "B": ["K"], "Z": ["M"]}
+        fs = [("t", "A", [V("M"), V("K")]), ("t", "B", [V("K")])]
+    else:
+        decl = {"A": ["M", "K"], "Z": ["M"]}
+        fs = [("t", "A", [V("M"), V("K")])]
+    e = dict(out="Z", oidx=[V("M")], terms=[dict(kind="times", factors=fs, sel=None)])
+    nl = rng.choice([1, 1, 2])
+    lead = "A" if not two or rng.random() < 0.7 else "B"
+    stack = ["uniform_occupancy(%s.%d)" % (lead, rng.randint(1, 4)) for _ in range(nl)]
+    klev = ["K%d" % j for j in range(nl, -1, -1)]
+    pos = rng.randint(0, len(klev))
+    loop = klev[:pos] + ["M"] + klev[pos:]
+    order = list(loop) if rng.random() < 0.7 else ["M"] + klev
+    brank = rng.choice(klev)
+    fmtA = {"rank-order": order}
+    for r in order:
+        fmtA[r] = {"format": "C", "cbits": 32, "pbits": 64} if r == brank or rng.random() < 0.5 else {"format": "U"}
+    buf = rng.choice(["Cache", "Buffet"])
+    battr = {"width": 64, "depth": 1024}
+    bind = {"tensor": "A", "rank": brank, "type": "elem", "format": "default"}
+    if buf == "Buffet":
+        bind.update({"evict-on": rng.choice(["root", loop[0]]), "style": rng.choice(["lazy", "eager"])})
+    case = dict(decl=decl, eins=[e], ext={"M": rng.randint(1, 4), "K": rng.randint(1, 7)}, env={}, tags=["g7occ", "occ%d" % nl, buf, "outer" if pos < len(klev) and loop[0] == "M" else "inner"],
+                mapping={"partitioning": {"Z": {"K": stack}}, "loop-order": {"Z": loop}, "spacetime": {"Z": {"space": [], "time": list(loop)}}})
+    case["architecture"] = {"accel": [{"name": "level0", "attributes": {"clock_frequency": 2048},
+                                       "local": [{"name": "DRAM", "class": "DRAM", "attributes": {"bandwidth": 512}}],
+                                       "subtree": [{"name": "level1", "local": [{"name": "L2", "class": buf, "attributes": battr}]}]}]}
+    case["bindings"] = {"Z": [{"config": "accel", "prefix": "tmp/Z"},
+                              {"component": "DRAM", "bindings": [{"tensor": "A", "rank": brank, "type": "elem", "format": "default"}]},
+                              {"component": "L2", "bindings": [bind]}]}
+    case["format"] = {"A": {"default": fmtA}, "Z": {"default": {"rank-order": ["M"], "M": {"format": "C", "cbits": 32, "pbits": 64}}}}
+    if two:
+        case["format"]["B"] = {"default": {"rank-order": ["K"], "K": {"format": "C", "cbits": 32, "pbits": 64}}}
+    return case
 
 
 def g4c(rng):
